@@ -69,6 +69,8 @@ def is_recordish(x):
 MODEL_FIELDS = {
     '_dns_address_cache_valid': ('_dns_address_cache', lambda v: v is not None),
     '_addr_nsec_cache_valid': ('_get_address_and_nsec_records_cache', lambda v: v is not None),
+    # identity set of a builder's answer section (ghost field of the send log)
+    'g_answers': ('answers', lambda v: {a: set() for a, t in v}),
 }
 
 
